@@ -706,7 +706,8 @@ def perform(side, op, proxy):
 
 def outcome(side, op, proxy):
     try:
-        v, how = perform(side, op, proxy)
+        with C.time_limit(20):       # an operation that no longer returns is an observation ("Hang"), not a stuck check
+            v, how = perform(side, op, proxy)
     except RecursionError as e:      # depth of the interpreter stack is not part of the property (a remote hop costs frames)
         return ("exc", "RecursionError"), None, None, e
     except BaseException as e:       # noqa: the class of whatever the operation raises is the observation
@@ -1596,7 +1597,10 @@ def check_buffiter_params(ctx, model, r, n_cases):
             p = w.ca._unbox(w.cb._box(target))
             del w.tap.reqs[:]
             try:
-                got = ("ok", list(buffiter(p, chunk, maxc, factor)))
+                with C.time_limit(20):
+                    got = ("ok", list(buffiter(p, chunk, maxc, factor)))
+            except C.Hang:
+                got = ("hang", len(w.tap.reqs))
             except Exception as e:
                 got = ("exc", C.exc_enum(e))
             fetches = fetch_counts(w.tap.reqs)
@@ -1609,6 +1613,12 @@ def check_buffiter_params(ctx, model, r, n_cases):
             if valid and (got != ("ok", list(range(n))) or left != 0):
                 ctx.violation("buffiter:items-differ", case, observed=short(got), expected="all %d items in order, iterator exhausted" % n,
                               what="buffiter(chunk=%d, factor=%d, max_chunk=%d) over %d items" % (chunk, factor, maxc, n))
+            if got[0] == "hang":
+                ctx.violation("buffiter:does-not-terminate", case, observed="%d requests sent and still running after 20 s" % got[1], expected="returns or raises",
+                              what="buffiter(chunk=%d, factor=%d, max_chunk=%d) over %d items never returns" % (chunk, factor, maxc, n))
+                w.close()
+                w = World("classic", ["list", []])
+                continue
             if factor < 1 and got != ("exc", "ValueError"):
                 ctx.violation("buffiter:factor-below-one-accepted", case, observed=short(got), expected="ValueError", what="factor < 1 must be rejected")
             if out is not None:
